@@ -25,6 +25,7 @@ class C10(ParserSessionProp):
         k['pruning_size'] = rng.choice([1, 2, 3, 4])
         k['use_beta'] = False
         k['step_cap_nbest'] = rng.choice([4000, 8000])
+        k['max_len'] = rng.choice([3, 4, 5]) if tier == 'quick' else rng.choice([4, 5, 6])
         return k
 
     def check_call(self, world, op, rec, stats, spec):
